@@ -572,15 +572,32 @@ func groups(w *mon.W) {
 				}
 			}
 		}
-		got := serve("GET", "/definitely/not/registered")
 		tail404 := []string{}
 		if haveNoRoute {
 			tail404 = []string{"noroute"}
 		}
 		want := onionMW(engineUses, tail404)
-		if strings.Join(got, " ") != strings.Join(want, " ") {
-			c.Violate("noroute-chain", "registration %v: unmatched request ran %v, want %v", ops, got, want)
-			return
+		// unmatched requests: a path nothing resembles, and the path of a registered route in
+		// another letter case (the fixed-path redirect is off, so that is simply not found)
+		unmatched := []string{"/definitely/not/registered"}
+		if rt := routes[r.Intn(len(routes))]; rt.method != "Any" {
+			unmatched = append(unmatched, strings.ToUpper(rt.path[:2])+rt.path[2:], rt.path+"/extra")
+		}
+		for _, up := range unmatched {
+			registered := false
+			for _, rt := range routes {
+				if rt.path == up {
+					registered = true
+				}
+			}
+			if registered {
+				continue
+			}
+			got := serve("GET", up)
+			if strings.Join(got, " ") != strings.Join(want, " ") {
+				c.Violate("noroute-chain", "registration %v: unmatched request GET %s ran %v, want %v", ops, up, got, want)
+				return
+			}
 		}
 		w.Shape(mon.Hash64(strings.Join(ops, ";")))
 		if w.WantSample() && len(routes) >= 2 {
